@@ -21,6 +21,7 @@ type c12Case struct {
 	Setup   [][]string `json:"setup"`   // model commands building the stored state
 	Program [][]string `json:"program"` // commands sent to the server
 	MapPerm int        `json:"map_perm,omitempty"`
+	Context int        `json:"context,omitempty"` // replies of the first Context program commands are not compared
 }
 
 func sameReply(got, want resp.Value) bool {
@@ -60,6 +61,9 @@ func c12Check(cs c12Case) (clause, detail string) {
 	}
 	for i, c := range cs.Program {
 		want := ref.Apply(c)
+		if i < cs.Context {
+			continue // a primitive executed for its side effects on the server only
+		}
 		if !sameReply(vals[i], want) {
 			return "reply@" + strings.ToUpper(c[0]), fmt.Sprintf("%s replied %s, Redis replies %s", argsString(c), vals[i], want)
 		}
@@ -278,6 +282,31 @@ func c12Run(c *fw.Ctx) {
 		}
 	}
 	progs(nil, 0)
+	// 9b. a composite after a conditional / option-carrying command on another
+	// key of the same server (whatever that command leaves behind in the
+	// executors must not change what the composite does), on populated state
+	preset := [][]string{{"SET", "k", "old"}, {"SET", "n", "10"}, {"HSET", "h", "a", "old"}, {"HSET", "h", "b", "old2"}, {"ZADD", "z", "1", "a", "2", "b"}, {"SADD", "s", "m"}}
+	contexts := [][]string{
+		{"SETNX", "q", "v"}, {"SETNX", "k", "v"}, {"HSETNX", "g", "f", "v"}, {"HSETNX", "h", "a", "v"}, {"MSETNX", "q", "1", "r", "2"}, {"MSETNX", "k", "1", "r", "2"},
+		{"SET", "q", "v", "NX"}, {"SET", "k", "v2", "XX"}, {"SET", "q", "v", "XX"}, {"SET", "k", "v3", "GET"},
+		{"ZADD", "y", "NX", "1", "a"}, {"ZADD", "z", "XX", "5", "a"}, {"ZADD", "z", "NX", "5", "a"}, {"ZADD", "z", "GT", "0", "b"}, {"ZADD", "z", "CH", "7", "b"}, {"ZADD", "z", "INCR", "1", "a"},
+		{"INCRBY", "n", "5"}, {"DECR", "n"}, {"APPEND", "q", "x"}, {"HMSET", "g", "f", "1"}, {"MSET", "q", "1"}, {"GETRANGE", "k", "1", "1"}, {"ZREVRANGEBYSCORE", "z", "2", "1", "LIMIT", "1", "1"}, {"ZREVRANGE", "z", "0", "0", "WITHSCORES"},
+	}
+	writers := [][]string{
+		{"MSET", "k", "new", "j", "x"}, {"MSETNX", "k", "1", "t", "2"}, {"MSETNX", "t", "1", "u", "2"}, {"HMSET", "h", "a", "new", "c", "3"}, {"HSET", "h", "a", "new"}, {"SET", "k", "new"},
+		{"APPEND", "k", "+x"}, {"INCR", "n"}, {"DECRBY", "n", "3"}, {"ZADD", "z", "9", "a"}, {"ZREVRANGE", "z", "0", "-1", "WITHSCORES"}, {"ZREVRANGEBYSCORE", "z", "+inf", "-inf", "WITHSCORES"}, {"SADD", "s", "m2"},
+	}
+	readback := [][]string{{"MGET", "k", "j", "n", "t", "u"}, {"HMGET", "h", "a", "b", "c"}, {"HVALS", "h"}, {"HLEN", "h"}, {"HSTRLEN", "h", "a"}, {"ZREVRANGE", "z", "0", "-1", "WITHSCORES"}, {"SCARD", "s"}}
+	for _, x := range contexts {
+		for _, w := range writers {
+			run(c12Case{Setup: preset, Context: 1, Program: append([][]string{x, w}, readback...)}, "after-"+x[0])
+			for _, w2 := range writers {
+				if c.Thorough() || w2[0] == w[0] {
+					run(c12Case{Setup: preset, Context: 1, Program: append([][]string{x, w, w2}, readback...)}, "after-"+x[0])
+				}
+			}
+		}
+	}
 	// 10. CONFIG SET / GET
 	c12Config(c)
 }
@@ -382,7 +411,7 @@ func init() {
 	fw.Register(&fw.Prop{
 		ID:          "C12",
 		Level:       "exploration",
-		Rule:        "handler = a reference store whose primitives are executed by the Redis model; composites are the code under test. Enumerated exhaustively: GETRANGE/SUBSTR over value lengths 0..6 and the missing key x start,end in -9..9; ZREVRANGE over sizes 0..5 (distinct scores and ties) x start,stop in -7..7 x WITHSCORES; ZREVRANGEBYSCORE over sizes 0..4 x 8x8 bounds incl. exclusive x 7 LIMITs x WITHSCORES; counters over 19 stored values (missing, non-integers incl. non-canonical forms such as 007, +5, -0, int64 boundaries) x INCR/DECR/INCRBY/DECRBY x 11 deltas; APPEND/STRLEN/PING/ECHO over 13 nasty strings (pairs); MSET/MSETNX/MGET over all 1..3-pair lists of a 3-key pool x 4 presets x all 6 map-iteration orders; hashes of 0..3 fields x read composites, HMSET x map orders; cardinalities of sizes 0..3; all programs of length <=2 (thorough 3) over 34 commands from the initial state (so every state reachable by shorter programs is a starting state); CONFIG SET (1..3 pairs, repeated keys, second SET) then CONFIG GET (repeats, unknown keys) x map orders. Oracle: reply value tree (type-strict; errors compared as 'is an error') and final store contents equal the model's.",
+		Rule:        "handler = a reference store whose primitives are executed by the Redis model; composites are the code under test. Enumerated exhaustively: GETRANGE/SUBSTR over value lengths 0..6 and the missing key x start,end in -9..9; ZREVRANGE over sizes 0..5 (distinct scores and ties) x start,stop in -7..7 x WITHSCORES; ZREVRANGEBYSCORE over sizes 0..4 x 8x8 bounds incl. exclusive x 7 LIMITs x WITHSCORES; counters over 19 stored values (missing, non-integers incl. non-canonical forms such as 007, +5, -0, int64 boundaries) x INCR/DECR/INCRBY/DECRBY x 11 deltas; APPEND/STRLEN/PING/ECHO over 13 nasty strings (pairs); MSET/MSETNX/MGET over all 1..3-pair lists of a 3-key pool x 4 presets x all 6 map-iteration orders; hashes of 0..3 fields x read composites, HMSET x map orders; cardinalities of sizes 0..3; all programs of length <=2 (thorough 3) over 34 commands from the initial state (so every state reachable by shorter programs is a starting state); a composite write (13 forms) and read-back after each of 24 conditional / option-carrying commands (SETNX, HSETNX, MSETNX, SET NX|XX|GET, ZADD NX|XX|GT|CH|INCR, counters, ...) on a populated store; CONFIG SET (1..3 pairs, repeated keys, second SET) then CONFIG GET (repeats, unknown keys) x map orders. Oracle: reply value tree (type-strict; errors compared as 'is an error') and final store contents equal the model's.",
 		Assumptions: []string{"the Redis model in /verif/model is the reference", "random programs beyond the bound are not claimed"},
 		Run:         c12Run,
 		Replay:      c12Replay,
